@@ -77,6 +77,17 @@ CHECKS = {
          'Theorem: if the analysis accepts fit;predict from the empty clean set, a fresh object and an arbitrarily used one that agree on constructor-only attributes read and write identical values; seeding erases all earlier RNG history. '
          'Per run the trace of xRFM.fit is re-translated (2315 events) and analysed in Coq, RNG call sites are listed (private generators fail closed); predictions are compared bitwise for same-seed fits after 0..10^4 prior draws and for refits after 1-2 earlier fits incl. a tie-forcing accuracy scenario.',
          'partial: bit-identity and the RNG library behaviour are observed. Trusted: Coq kernel + vm_compute, translator, exemptions (tuning_metric, class_converter_*), the case split on the constructor-only flag use_temperature_tuning.'),
+
+ 'C18': ('DESIGN.md §4 C18',
+         'Coq proofs of the save/set/restore protocols (induction over well-bracketed event sequences; thread protocol) + AST structure checks regenerated from the source + vm_compute correspondence of the real decorator on random call trees + bitwise observation of caller data',
+         'Theorems: for every well-bracketed nesting of wrapped calls (returning or raising) and every initial value (present/absent) the environment variable is restored and the override is visible inside; for every initial thread count and n_threads the count is restored on normal return. '
+         'Per run: with_env_var and the thread blocks are matched structurally in the source, other writers of process-wide settings and in-place operations on parameters are enumerated against allow-lists; random call trees run through the real decorator and are compared with the event model in Coq; every public call is run on tensors/arrays whose bytes and _version are compared, with probes inside fit.',
+         'partial: aliasing of caller tensors is observed only. Trusted: Coq kernel + vm_compute, AST matchers, byte/_version comparison.'),
+ 'C20': ('DESIGN.md §4 C20',
+         'Coq proof over a thin coercion model (finite case analysis) + vm_compute correspondence of the observed canonical leaf inputs + bitwise differential across representations',
+         'Theorems: all accepted feature representations share one canonical form; the task type depends only on metric and float-ness of the target dtype; the canonical target format is independent of container, width and (n,)/(n,1). '
+         'Per run: identical data in every representation (tensor/array, float32/64, int8..int64/uint8, flat/column) is fitted with identical seeds; canonical leaf inputs (recording subclass) and predictions must be bitwise equal, output shapes/dtypes as stated.',
+         'partial: thin model; equality of results is observed. Trusted: Coq kernel + vm_compute, recording subclass.'),
 }
 
 NOT_YET = 'check not built yet in this session (planned, see DESIGN.md §4)'
